@@ -20,7 +20,7 @@ def frameMonStep (st : MonState) (w : List String) : MonState × String :=
   match parseObs? obs with
   | none => (st, "bad-op")
   | some (frames, e) =>
-    let startStream (s : Bytes) (parts : Option (List (Bool × Bytes))) (name : String) : MonState × String :=
+    let startStream (s : Bytes) (parts : Option Parts) (name : String) : MonState × String :=
       let st1 : MonState := { stream := s, parts := parts, ref := none }
       let bad := monRead st1 name false frames e
       ({ st1 with ref := if e = "panic" ∨ e = "hang" then none else some (frames, e) }, verdict bad)
@@ -29,7 +29,10 @@ def frameMonStep (st : MonState) (w : List String) : MonState × String :=
         | some s => startStream s none "stream"
         | none => (st, "bad-op"))
     | "parts" :: toks => (match toks.mapM parsePart? with
-        | some ps => if partsOk ps then startStream (concatParts ps) (some ps) "parts" else (st, "bad-op")
+        | some toks =>
+          let ps := mkParts toks
+          -- the claimed decomposition is checked here, not trusted: messages well-formed, separators without "8="
+          if ps.ok then startStream ps.stream (some ps) "parts" else (st, "bad-op")
         | none => (st, "bad-op"))
     | ["cuts", sz, ed] => (match parseSizes? sz, parseYN? ed with
         | some _, some _ => (st, verdict (monRead st "cuts" false frames e))
